@@ -41,8 +41,10 @@ def predicate(name, r):
     if name == "array_move":
         return any(k in ks for k in ("a.mva", "a.mvb", "a.mvf", "a.mvl"))
     if name == "text_or_array_delete":
-        if "a.del" in ks or "a.set" in ks or "r.tdel" in ks or "r.edel" in ks:
-            return True  # array / tree-text deletions leave tombstones in an RGA-ordered sequence as well
+        if any(k in ks for k in ("a.del", "a.set", "a.mva", "a.mvb", "a.mvf", "a.mvl", "r.tdel", "r.edel")):
+            # array deletions, replacements and MOVES (a move leaves a dead position node behind)
+            # and tree-text deletions leave tombstones in an RGA-ordered sequence as well
+            return True
         for st in trace:
             for e in st.get("edits") or []:
                 if e.get("k") == "t.edit" and (e.get("i", 0) != e.get("j", 0)):
